@@ -181,8 +181,22 @@ def run(pid: str, tier: str, seed: int, replay: str | None = None) -> int:
             for i in sorted(res[kind_])[:int(os.environ.get("VERIF_DEBUG"))]:
                 print(f"DEBUG {kind_} case {i} subs={res.get('sub', {}).get(kind_, {}).get(i)}: "
                       f"{mod.describe(cases[i], outs[i]) if hasattr(mod, 'describe') else ''}")
-                print("   ", json.dumps(cases[i], default=str)[:1500])
-                print("   ", json.dumps(outs[i], default=str)[:2500])
+                if os.environ.get("VERIF_DEBUG_VERBOSE"):
+                    print("   ", json.dumps(cases[i], default=str)[:1500])
+                    print("   ", json.dumps(outs[i], default=str)[:2500])
+                # dump the failing Coq terms for interactive inspection
+                try:
+                    ts = mod.emit_all(cases[i], outs[i]) if hasattr(mod, "emit_all") else [mod.emit(cases[i], outs[i])]
+                    subs = res.get("sub", {}).get(kind_, {}).get(i) or [0]
+                    dp = os.path.join(fw.BUILD, pid, f"debug_{kind_}_{i}.v")
+                    with open(dp, "w") as f:
+                        f.write(f"From RV Require Import {mod.RUNNER}.\nFrom Coq Require Import ZArith QArith List.\n"
+                                "Import ListNotations.\nOpen Scope Q_scope.\n")
+                        for sj in subs[:3]:
+                            f.write(f"Definition c{sj} : {mod.CASE_TYPE} := {ts[sj]}.\nEval vm_compute in (check c{sj}).\n")
+                    print("    coq terms dumped to", dp)
+                except Exception as e:
+                    print("    (could not dump terms:", e, ")")
 
     def report(i, kind, suffix=""):
         c, o = cases[i], outs[i]
